@@ -79,7 +79,8 @@ FlatRows(t, id1, id2, parent, depth, side, paxis, next) ==    \* next = row inde
   IN IF t.leaf THEN me
      ELSE me \o FlatRows(t.lo, id1, id2, next, depth + 1, "le", t.axis, next + 1)
              \o FlatRows(t.hi, id1, id2, next, depth + 1, "gt", t.axis, next + 1 + NNodes(t.lo))
-Plotly(t, id1, id2) == FlatRows(t, id1, id2, 0, 0, "root", -1, 1)
+Plotly(t, id1, id2) == IF t.cnt[id1] = -1 THEN <<>>      \* an id that was never filled has no view
+                       ELSE FlatRows(t, id1, id2, 0, 0, "root", -1, 1)
 (* Kulldorff spatial scan statistic of a node: divergence between the two-cell (node vs rest) distributions *)
 KSS(cref, ctest, refmax, testmax) == KL(<<cref, refmax - cref>>, <<ctest, testmax - ctest>>)
 SeqMaxInt(q) == Max({ q[i] : i \in 1..Len(q) })
